@@ -20,6 +20,8 @@ type checkDef struct {
 
 var checks = map[string]*checkDef{}
 
+var onlyPart string
+
 func register(id string, c *checkDef) { checks[id] = c }
 
 func main() {
@@ -32,6 +34,8 @@ func main() {
 		tier := fs.String("tier", "", "quick|thorough")
 		dir := fs.String("dir", "/verif", "verif dir")
 		budget := fs.Duration("budget", 0, "override time budget")
+		workers := fs.Int("workers", 0, "override worker count")
+		only := fs.String("only", "", "debug: run only the named part of a check")
 		if len(os.Args) < 3 {
 			usage()
 		}
@@ -59,6 +63,10 @@ func main() {
 		if *budget != 0 {
 			b = *budget
 		}
+		if *workers > 0 {
+			r.Workers = *workers
+		}
+		onlyPart = *only
 		r.Deadline = r.Start.Add(b)
 		r.Bounds["time_budget_s"] = b.Seconds()
 		debug.SetGCPercent(400)
